@@ -566,6 +566,12 @@ def split_multiple_persons_names(names):
 
         # Escaped character.
         if char == "\\":
+            # An escape is a regular (non-whitespace) character of a name:
+            # it starts the next name after an ' and ', and interrupts a potential ' and '.
+            if step == NEXT_WORD:
+                spans[-1].append(possible_end)
+                spans.append([pos - 1])
+            step = START_WHITESPACE
             try:
                 next(namesiter)
             # If we're at the end of the string, then the \ is just a \.
